@@ -1,10 +1,18 @@
 #!/usr/bin/env python3
-"""usage: seed_store.py <worktree> <prop> — copy confirmed red-team changes into /verif/seeded/<prop>-<k>/"""
+"""usage: seed_store.py <worktree> <prop> [offset] — copy confirmed red-team changes into /verif/seeded/<prop>-<k+offset>/
+(only the changes whose confirmation file /tmp/wt/confirm_<wtname>_<k>.out says all four checks hold)"""
 import json, os, shutil, sys, glob
 wt, prop = sys.argv[1], sys.argv[2]
+offset = int(sys.argv[3]) if len(sys.argv) > 3 else 0
+wtname = os.path.basename(wt.rstrip('/'))
 for diff in sorted(glob.glob(f'{wt}/redteam_out/change*.diff')):
     k = os.path.basename(diff)[6:-5]
-    d = f'/verif/seeded/{prop}-{k}'
+    kk = int(k) + offset
+    cf = f'/tmp/wt/confirm_{wtname}_{k}.out'
+    if os.path.exists(cf) and 'False' in open(cf).read().split('CONFIRM')[-1]:
+        print('NOT confirmed, skipped:', diff)
+        continue
+    d = f'/verif/seeded/{prop}-{kk}'
     os.makedirs(d, exist_ok=True)
     shutil.copy(diff, f'{d}/patch.diff')
     shutil.copy(f'{wt}/redteam_out/demo{k}.rs', f'{d}/demo.rs')
@@ -13,10 +21,9 @@ for diff in sorted(glob.glob(f'{wt}/redteam_out/change*.diff')):
     except Exception:
         m = {}
     conf = ''
-    cf = f'/tmp/wt/confirm_{prop}_{k}.out'
     if os.path.exists(cf):
         conf = open(cf).read().strip()
-    meta = {'id': f'{prop}-{k}', 'property': prop, 'summary': m.get('summary', ''),
+    meta = {'id': f'{prop}-{kk}', 'property': prop, 'summary': m.get('summary', ''),
             'needs_to_manifest': m.get('needs_to_manifest', ''),
             'author': 'independent sub-agent given only the property text and a scratch worktree',
             'author_commands': m.get('commands_run', ''),
